@@ -524,21 +524,31 @@ class Zeroconf(QuietLogger):
         method does not return a future and is always expected to be
         awaited since its only called at shutdown.
         """
-        # The goodbyes of services that were unregistered just before are still
-        # going out, they would be cut short when the instance is marked done
-        if self._goodbye_tasks:
-            await asyncio.wait(self._goodbye_tasks)
         # Send Goodbye packets https://datatracker.ietf.org/doc/html/rfc6762#section-10.1
         # A registration that finishes probing while the goodbyes are going out
         # is announced, keep going until there is nothing left to withdraw
         while True:
+            # The goodbyes of services that were unregistered just before, or
+            # meanwhile, are still going out, they would be cut short when the
+            # instance is marked done
+            while self._goodbye_tasks:
+                await asyncio.wait(self._goodbye_tasks)
             out = self.generate_unregister_all_services()
             if not out:
                 return
-            for i in range(_REGISTER_BROADCASTS):
-                if i != 0:
-                    await asyncio.sleep(millis_to_seconds(_UNREGISTER_TIME))
-                self.async_send(out)
+            # Tracked like the goodbyes of a single service so that a second
+            # shutdown request waits for it instead of cutting it short
+            goodbye = asyncio.ensure_future(self._async_broadcast_goodbyes(out))
+            self._goodbye_tasks.add(goodbye)
+            goodbye.add_done_callback(self._goodbye_tasks.discard)
+            await goodbye
+
+    async def _async_broadcast_goodbyes(self, out: DNSOutgoing) -> None:
+        """Send the goodbye packet for all services at intervals."""
+        for i in range(_REGISTER_BROADCASTS):
+            if i != 0:
+                await asyncio.sleep(millis_to_seconds(_UNREGISTER_TIME))
+            self.async_send(out)
 
     def unregister_all_services(self) -> None:
         """Unregister all registered services.
